@@ -59,14 +59,14 @@ type rckFailure struct {
 }
 
 type rckResult struct {
-	Harness     string        `json:"harness"`
-	Bound       string        `json:"bound"`
-	Evaluations int           `json:"evaluations"`
-	Distinct    int           `json:"distinct_nontrivial"`
-	Rule        string        `json:"rule"`
-	Exhaustive  bool          `json:"exhaustive"`
-	Samples     []interface{} `json:"samples"`
-	Failures    []rckFailure  `json:"failures"`
+	Harness     string         `json:"harness"`
+	Bound       string         `json:"bound"`
+	Evaluations int            `json:"evaluations"`
+	Distinct    int            `json:"distinct_nontrivial"`
+	Rule        string         `json:"rule"`
+	Exhaustive  bool           `json:"exhaustive"`
+	Samples     []interface{}  `json:"samples"`
+	Failures    []rckFailure   `json:"failures"`
 	PerProp     map[string]int `json:"evaluations_per_property"`
 }
 
@@ -278,6 +278,34 @@ func (rr *rckRun) buildCluster(order []string, how int) (c *cluster, err error) 
 
 func (rr *rckRun) checkOwners(c, ref *cluster, ids []string, seq []string, full bool) {
 	n := len(ids)
+	// every partition directly
+	for p := 0; p < c.partitionN; p++ {
+		rr.eval("C20", 1)
+		owners := rckIDs(c.partitionNodes(p))
+		want := c.ReplicaN
+		if want < 1 {
+			want = 1
+		}
+		if want > n {
+			want = n
+		}
+		where := fmt.Sprintf("partition=%d replicaN=%d partitionN=%d nodes=%q", p, c.ReplicaN, c.partitionN, c.nodeIDs())
+		dist := map[string]bool{}
+		for _, o := range owners {
+			if dist[o] {
+				rr.fail([]string{"C20"}, "owners-not-distinct", fmt.Sprintf("partitionNodes %q repeat a node; %s", owners, where), seq)
+			}
+			dist[o] = true
+		}
+		if len(owners) != want {
+			rr.fail([]string{"C20"}, "owners-count", fmt.Sprintf("partitionNodes returns %d owners %q, want min(max(replicas,1),nodes)=%d; %s", len(owners), owners, want, where), seq)
+		}
+		if ref != nil {
+			if refOwners := rckIDs(ref.partitionNodes(p)); !rckSetEq(owners, refOwners) {
+				rr.fail([]string{"C20"}, "owners-depend-on-join-path", fmt.Sprintf("partitionNodes %q differ from %q of the cluster built from the same IDs in sorted order; %s", owners, refOwners, where), seq)
+			}
+		}
+	}
 	for _, index := range []string{"i", "j"} {
 		avail := rckBitmapRange(40)
 		want := c.ReplicaN
@@ -538,7 +566,7 @@ func (rr *rckRun) runC20() {
 	defer sh.h.Close()
 	replicaNs := []int{0, 1, 2, 3, 4, 5, 6, 7}
 	partitionNs := []int{1, 2, 7, 16, 256}
-	setsPerSize := 4
+	setsPerSize := 3
 	if rr.thorough {
 		setsPerSize = 24
 	}
@@ -858,7 +886,7 @@ func (rr *rckRun) runC21() {
 	}()
 	setsPerSize := 4
 	if rr.thorough {
-		setsPerSize = 40
+		setsPerSize = 80
 	}
 	for n := 1; n <= 6; n++ {
 		for k := 0; k < setsPerSize; k++ {
@@ -1152,7 +1180,7 @@ func (rr *rckRun) runC11Merge() {
 	// random part
 	randN := 1500
 	if rr.thorough {
-		randN = 60000
+		randN = 150000
 	}
 	cols := []uint64{0, 1, 2, 65535, 65536, ShardWidth - 1}
 	for n := 0; n < randN; n++ {
@@ -1519,6 +1547,19 @@ func (rr *rckRun) runC11Sync() {
 		}
 		rr.aeCase(all, n, 1%n, []rckFragKey{rckAEFrags[2], rckAEFrags[3]}, content, false)
 	}
+	// the same, while the standard view itself diverges in another block (rows 100..199)
+	for n := 3; n <= 4; n++ {
+		content := make([]map[rckFragKey]rckBits, n)
+		for r := 0; r < n; r++ {
+			content[r] = map[rckFragKey]rckBits{
+				rckAEFrags[2]: {{0, 0}: true, {1, 3}: true},
+				rckAEFrags[3]: {{1, 3}: true},
+			}
+		}
+		content[0][rckAEFrags[3]] = rckBits{{0, 0}: true, {1, 3}: true}
+		content[n-1][rckAEFrags[2]] = rckBits{{0, 0}: true, {1, 3}: true, {150, 0}: true}
+		rr.aeCase(all, n, 1, []rckFragKey{rckAEFrags[2], rckAEFrags[3]}, content, false)
+	}
 	// one block diverges while the next block (rows 100..199) holds the same bit on every replica
 	for _, k := range []rckFragKey{rckAEFrags[0], rckAEFrags[4]} {
 		for n := 2; n <= 4; n++ {
@@ -1537,7 +1578,7 @@ func (rr *rckRun) runC11Sync() {
 	// random multi-fragment cases
 	randN := 400
 	if rr.thorough {
-		randN = 12000
+		randN = 30000
 	}
 	rows := []uint64{0, 1, 99, 100, 150, 305}
 	cols := []uint64{0, 3, 65535, 65536, ShardWidth - 1}
@@ -1648,7 +1689,10 @@ func rckEntries() []rckEntry {
 	}
 	return []rckEntry{
 		{"Query", rckClassData, func(a *API) error { _, err := a.Query(ctx, &QueryRequest{Index: "i", Query: "Row(s=1)"}); return err }},
-		{"Query(Set)", rckClassData, func(a *API) error { _, err := a.Query(ctx, &QueryRequest{Index: "i", Query: "Set(1, s=1)"}); return err }},
+		{"Query(Set)", rckClassData, func(a *API) error {
+			_, err := a.Query(ctx, &QueryRequest{Index: "i", Query: "Set(1, s=1)"})
+			return err
+		}},
 		{"Import", rckClassData, func(a *API) error {
 			return a.Import(ctx, &ImportRequest{Index: "i", Field: "s", Shard: 0, RowIDs: []uint64{1}, ColumnIDs: []uint64{1}})
 		}},
@@ -1677,7 +1721,9 @@ func rckEntries() []rckEntry {
 		{"RecalculateCaches", rckClassOther, func(a *API) error { return a.RecalculateCaches(ctx) }},
 		{"RemoveNode", rckClassOther, func(a *API) error { _, err := a.RemoveNode("no-such-node"); return err }},
 		{"FragmentData", rckClassResizeServed, func(a *API) error { _, err := a.FragmentData(ctx, "i", "s", viewStandard, 0); return err }},
-		{"ClusterMessage", rckClassResizeServed, func(a *API) error { return a.ClusterMessage(ctx, bytes.NewReader([]byte{messageTypeRecalculateCaches})) }},
+		{"ClusterMessage", rckClassResizeServed, func(a *API) error {
+			return a.ClusterMessage(ctx, bytes.NewReader([]byte{messageTypeRecalculateCaches}))
+		}},
 		{"SetCoordinator", rckClassResizeServed, func(a *API) error { _, _, err := a.SetCoordinator(ctx, "no-such-node"); return err }},
 		{"ResizeAbort", rckClassResizeServed, func(a *API) error { return a.ResizeAbort() }},
 	}
@@ -1877,7 +1923,13 @@ func TestRcheckCluster(t *testing.T) {
 	if thorough {
 		tier = "thorough"
 	}
-	res.Bound = fmt.Sprintf("tier %s, seed %d. C20: 1..6 node IDs from a pool of %d odd strings, all join orders (quick: at most 24 per ID set) via addNodeBasicSorted/addNode/mergeClusterStatus/add+remove/nodeJoin, replicaN 0..7, partitionN {1,2,7,16,256}, indexes i,j, shards 0..40; cleaner+syncer call sites on shards 0..12. C21: 1..6 nodes, replicaN 0..5, partitionN {256,8}, 2 schemas (indexes i,j[,empty]; time/int/set fields; views standard, standard_2018, bsig_g; available shards random in 0..24), every single add (3 new IDs) and every single remove. C11: mergeBlock exhaustive over 2 positions x 1..5 replicas and 3 positions x 2..3(4) replicas in standard/time/bsi fragments plus random (<=7 positions, 1..5 replicas, blocks 0,1,3, shards 0..2); SyncHolder passes over 2..5 in-process replicas (exhaustive 2 positions x 2..3 replicas in standard and time views, plus random multi-view cases). C23: all apiMethod constants x {STARTING,NORMAL,DEGRADED,RESIZING} exhaustive; 27 exported entry points x states.", tier, seed, len(rckIDPool))
+	sz := map[string][]int{"quick": {3, 24, 4, 1500, 400}, "thorough": {24, 720, 80, 150000, 30000}}[tier]
+	res.Bound = fmt.Sprintf("tier %s, seed %d. "+
+		"C20: node-ID sets of 1..6 IDs from a pool of %d odd strings (%d sets per size), join orders: all, capped at %d per set (thorough: all 720 for the first two 6-node sets, 240 for the others), through addNodeBasicSorted (every order) and addNode / mergeClusterStatus on a non-coordinator / add+remove of an extra node / nodeJoin on the coordinator (a subset of the orders); replicaN 0..7 x partitionN {1,2,7,16,256} (all 40 for the first two orders of a set, sampled beyond), indexes i,j, shards 0..40 plus every partition 0..partitionN-1 directly; cleaner (RESIZING->NORMAL transition) and SyncHolder call sites on a holder with shards 0..12 for replicaN {1,2,3,7}. "+
+		"C21: clusters of 1..6 nodes (%d ID sets per size), replicaN 0..5, partitionN {256,8}, 2 schemas (indexes i,j[,empty]; time/int/set fields; views standard, standard_2018, bsig_g; a field without views; available shards random in 0..24), every single add (3 new IDs: before/inside/after the ring) up to a resulting 6 nodes and every single remove, through fragSources and unprotectedGenerateResizeJobByAction. "+
+		"C11: mergeBlock exhaustive over 2 bit positions x 1..5 replicas (thorough 6) and 3 positions x 2..3 replicas (4 for the standard fragment and in thorough) in standard/time/bsi fragments on shards 0/2/1, plus %d random cases (<=7 positions, 1..5 replicas, thorough up to 8, blocks 0,1,3, local bits in neighbouring blocks); complete SyncHolder passes over 2..5 in-process replicas of index i (set field s, time field t with views standard and standard_2019, shards 0,1): exhaustive 2 positions x 2..3 replicas (4 for the time view and in thorough), hand-picked cross-view / neighbouring-block cases, %d random multi-fragment cases (rows {0,1,99,100,150,305}). "+
+		"C23: all apiMethod constants x {STARTING,NORMAL,DEGRADED,RESIZING} EXHAUSTIVE; 27 calls of exported API entry points x states on a holder-less API and on a live single-node API.",
+		tier, seed, len(rckIDPool), sz[0], sz[1], sz[2], sz[3], sz[4])
 	rr := &rckRun{t: t, res: res, rng: rand.New(rand.NewSource(seed)), thorough: thorough, dir: dir, seen: map[string]bool{}}
 
 	start := time.Now()
